@@ -22,9 +22,7 @@ fn bits_nonfinite(bits: u64) -> bool {
     (bits >> 52) & 0x7ff == 0x7ff
 }
 
-/// `witness`: emit cover goals (off in the known-finding twin, whose solver output should only
-/// contain the counterexample).
-fn check_sample(size: usize, buf: [u8; 40], witness: bool) {
+fn check_sample(size: usize, buf: [u8; 40]) {
     let magic_ok = buf[36] == 0x4b && buf[37] == 0x43 && buf[38] == 0x4f && buf[39] == 0x53; // "KCOS" = LE 0x534f434b
     let pulse_zero = buf[24] == 0 && buf[25] == 0 && buf[26] == 0 && buf[27] == 0;
     let off_bits = le_u64(&buf, 16);
@@ -36,13 +34,9 @@ fn check_sample(size: usize, buf: [u8; 40], witness: bool) {
             assert!(offset.to_bits() == off_bits, "offset is the f64 at bytes 16..24");
             assert!(leap == le_i32(&buf, 28), "leap is the i32 at bytes 28..32");
             assert!(!bits_nonfinite(off_bits) && offset.is_finite(), "accepted a non-finite offset");
-            if witness {
-                kani::cover!(offset < 0.0, "accepted a negative offset");
-                kani::cover!(leap == 1, "accepted with leap = 1");
-            }
         }
         Err(code) => {
-            // completeness + error classification (size is checked first, then magic, then pulse)
+            // completeness + error classification (size first, then magic, pulse, offset)
             assert!(size != 40 || !magic_ok || !pulse_zero || bits_nonfinite(off_bits), "rejected a valid sample");
             if size != 40 {
                 assert!(code == 2);
@@ -50,35 +44,42 @@ fn check_sample(size: usize, buf: [u8; 40], witness: bool) {
                 assert!(code == 3);
             } else if !pulse_zero {
                 assert!(code == 4);
-            }
-            if witness {
-                kani::cover!(code == 2 && size == 39, "rejected size 39");
-                kani::cover!(code == 2 && size == 41, "rejected size 41");
-                kani::cover!(code == 3, "rejected wrong magic");
-                kani::cover!(code == 4, "rejected pulse");
+            } else {
+                assert!(code == 5, "non-finite offset reported as such");
             }
         }
     }
 }
 
-/// Every size and every 40-byte datagram whose offset field is a finite f64.
+/// Every size and every 40-byte datagram (finite and non-finite offsets alike).
 #[kani::proof]
 #[kani::unwind(10)]
 fn c40_sample() {
     let size: usize = kani::any();
     let buf: [u8; 40] = kani::any();
-    kani::assume(!bits_nonfinite(le_u64(&buf, 16)));
-    check_sample(size, buf, true);
+    let r = h::deserialize_sample_raw(Ok(size), buf);
+    check_sample(size, buf);
+    kani::cover!(matches!(r, Ok((o, _, l, _)) if o < 0.0 && l == 1), "accepted a negative offset with leap = 1");
+    kani::cover!(r == Err(2) && size == 39, "rejected size 39");
+    kani::cover!(r == Err(2) && size == 41, "rejected size 41");
+    kani::cover!(r == Err(3), "rejected wrong magic");
+    kani::cover!(r == Err(4), "rejected pulse");
+    kani::cover!(r == Err(5), "rejected non-finite offset");
 }
 
-/// Expected to FAIL on the unchanged tree: NaN / +-inf offsets are accepted.
+/// Formerly the known-finding twin (fixed by /repo 890ad01): an otherwise valid datagram whose
+/// offset is NaN or +-inf must be rejected.
 #[kani::proof]
 #[kani::unwind(10)]
-fn c40_sample_kf_nonfinite_offset() {
+fn c40_sample_nonfinite_offset() {
     let size: usize = kani::any();
     let buf: [u8; 40] = kani::any();
     kani::assume(bits_nonfinite(le_u64(&buf, 16)));
-    check_sample(size, buf, false);
+    let r = h::deserialize_sample_raw(Ok(size), buf);
+    assert!(r.is_err(), "a datagram with a non-finite offset was accepted");
+    check_sample(size, buf);
+    kani::cover!(r == Err(5) && le_u64(&buf, 16) == 0x7ff0_0000_0000_0000, "+inf rejected");
+    kani::cover!(r == Err(5) && le_u64(&buf, 16) == u64::MAX, "NaN (all ones) rejected");
 }
 
 /// A failed receive is reported as an error, never as a sample.
